@@ -83,6 +83,11 @@ def main():
         if any(k[0] in ("rel", "abs", "abs2") for k in case["kinds"]):
             nt += 1
         mm = judge(case, o["obs"])
+        # the view below the deleting layer, asked before and after the final view
+        for key in ("obs0", "obs0again"):
+            if key in o and "expect0" in case:
+                mm += ["[view below the deleting layer, %s the final view was asked] %s" % ("before" if key == "obs0" else "after", m)
+                       for m in judge({"kinds": case["kinds"], "expect": case["expect0"]}, o[key])]
         if mm and len(ck.violations) < 40:
             ck.violation("C17: " + "; ".join(mm[:2]), {"case": case, "observed": o["obs"], "mismatch": mm[:10]})
         elif mm:
@@ -93,7 +98,7 @@ def main():
     ck.cov["exhaustive"] = True
     ck.cov["rule"] = ("every graph on N named entries (N = 3,4; thorough also 5), each a file, directory, missing, deleted by a later layer's whiteout, a symlink leaving the root, or a "
                       "relative / absolute / non-canonically spelled absolute symlink to any entry, x every MaxSymlinkDepth 0..6; graphs are packed 1000 per real image and every entry is probed "
-                      "with Stat, Open(+Stat) and ReadDir; plus (SymlinkRequire.tla) every graph on 3 (thorough: 4) entries x every set of required entries loaded with a file requirer, 3 times each; "
+                      "with Stat, Open(+Stat) and ReadDir in the view below the deleting layer, then the final view, then the first again; images alternate between with and without config history; plus (SymlinkRequire.tla) every graph on 3 (thorough: 4) entries x every set of required entries loaded with a file requirer, 3 times each; "
                       "non-trivial = the graph contains a symlink")
     ck.sample((cases or req_cases)[len(cases or req_cases) // 3])
     ck.assumptions += ["when the chain reaches a missing entry exactly when the hop budget is exhausted both 'not found' and the depth error are accepted",
